@@ -220,6 +220,37 @@ pub fn main(args: Args) -> i32 {
             }
         });
     }
+    // names that begin with the base directory itself (as a file watcher or a directory listing would
+    // hand them over): the absolute path of the base, with and without a trailing separator, behind a
+    // further slash, its last component, and its path relative to the process - followed by every
+    // sequence of up to 3 (thorough 4) segments
+    {
+        let abs = tree.base.to_string_lossy().to_string();
+        let cwd = std::env::current_dir().map(|p| p.to_string_lossy().to_string()).unwrap_or_default();
+        let mut prefixes: Vec<String> = vec![format!("{}/", abs), abs.clone(), format!("/{}/", abs), format!("{}//", abs), "base/".into(), "outer/base/".into(), format!("{}/./", abs), format!("{}/", abs.trim_start_matches('/'))];
+        if let Some(rel) = abs.strip_prefix(&format!("{}/", cwd)) {
+            prefixes.push(format!("{}/", rel));
+            prefixes.push(format!("./{}/", rel));
+        }
+        let plen = args.tier.pick(3u32, 4u32);
+        for len in 1..=plen {
+            let count = nseg.pow(len) * prefixes.len() as u64;
+            total += count;
+            par_chunks(count, 256, &acc, |r, l| {
+                for n in r {
+                    let mut k = n / prefixes.len() as u64;
+                    let mut parts = vec![];
+                    for _ in 0..len {
+                        parts.push(segs[(k % nseg) as usize].as_str());
+                        k /= nseg;
+                    }
+                    let name = format!("{}{}", prefixes[(n % prefixes.len() as u64) as usize], parts.join("/"));
+                    check_name(&tree.base, &name, &acc, l);
+                }
+            });
+        }
+        acc.count("base_prefixed_name_prefixes", prefixes.len() as u64);
+    }
     // absolute and noise names
     let extra = [
         tree.root.join("outer").join("secret").to_string_lossy().to_string(),
